@@ -24,6 +24,7 @@ pub struct Worker {
     reaped: Option<ExitStatus>,
     pub canaries_not_ok: u32,
     pub canaries_unstable: u32,
+    pub canaries_not_ok_names: Vec<String>,
 }
 
 #[derive(Debug, Clone)]
@@ -37,9 +38,14 @@ pub enum Reply {
 
 impl Worker {
     pub fn spawn() -> Result<Worker, String> {
+        Self::spawn_mode(false)
+    }
+    /// `bare`: the worker makes no canary calls, a delivery is the first call of the process.
+    pub fn spawn_mode(bare: bool) -> Result<Worker, String> {
         let exe = std::env::current_exe().map_err(|e| format!("current_exe: {e}"))?;
         let mut child = Command::new(exe)
             .arg("worker")
+            .arg(if bare { "bare" } else { "full" })
             .stdin(Stdio::piped())
             .stdout(Stdio::piped())
             .stderr(Stdio::null())
@@ -70,12 +76,13 @@ impl Worker {
                 }
             })
             .map_err(|e| format!("cannot spawn reader thread: {e}"))?;
-        let mut w = Worker { child, stdin, rx, reader: Some(reader), reaped: None, canaries_not_ok: 0, canaries_unstable: 0 };
+        let mut w = Worker { child, stdin, rx, reader: Some(reader), reaped: None, canaries_not_ok: 0, canaries_unstable: 0, canaries_not_ok_names: Vec::new() };
         match w.rx.recv_timeout(WATCHDOG) {
             Ok(Msg::Line(l)) if l.starts_with("H\t") => {
                 let f: Vec<&str> = l.split('\t').collect();
                 w.canaries_not_ok = f.get(2).and_then(|s| s.parse().ok()).unwrap_or(0);
                 w.canaries_unstable = f.get(3).and_then(|s| s.parse().ok()).unwrap_or(0);
+                w.canaries_not_ok_names = f.get(4).map(|s| s.split(',').filter(|x| !x.is_empty()).map(|x| x.to_string()).collect()).unwrap_or_default();
                 Ok(w)
             }
             Ok(Msg::Line(l)) => Err(format!("worker said {l:?} instead of hello")),
@@ -154,6 +161,14 @@ impl Drop for Worker {
 }
 
 /// Run one delivery alone in a fresh worker.
+/// One delivery as the very first call of a fresh process (no canary calls before it).
+pub fn isolated_bare(entry: u32, bytes: &[u8]) -> Result<Reply, String> {
+    let mut w = Worker::spawn_mode(true)?;
+    let r = w.deliver(entry, bytes, WATCHDOG);
+    w.kill();
+    Ok(r)
+}
+
 pub fn isolated(entry: u32, bytes: &[u8]) -> Result<Reply, String> {
     let mut w = Worker::spawn()?;
     let r = w.deliver(entry, bytes, WATCHDOG);
